@@ -13,7 +13,7 @@ META = {
     "note": "Trusted: TLC, Go toolchain, math/big and time accessors used for projection. 'Must accept' is demanded only for canonical encodings of values in the documented range of the target (instance of C18/C21); canonical values beyond a codec's documented limits (OID arcs >= 2^31 resp. >= 2^28, tag numbers >= 2^31, zone offsets >= 24h) may be rejected. UTCTime is outside the statement. Contents longer than the bounds are sampled, not enumerated.",
 }
 
-KINDS = ["int", "bool", "oid", "bits", "time", "len", "tag"]
+KINDS = ["int", "bool", "oid", "bits", "time", "utc", "len", "tag"]
 
 QUICK = dict(INT_FULL=1, INT_MAX=3, INT_LONG=10, OID_FULL=1, OID_MAX=3, OID_LONG=8, BITS_FULL=1, BITS_MAX=3, BOOL_FULL=1,
              BOOL_MAX=2, LEN_FULL=2, LEN_MAX=4, LEN_SMALL=6, TAG_FULL=2, TAG_MAX=4, TIMEMENU='"quick"',
@@ -22,7 +22,7 @@ QUICK = dict(INT_FULL=1, INT_MAX=3, INT_LONG=10, OID_FULL=1, OID_MAX=3, OID_LONG
 THOROUGH = [
     (["int"], dict(INT_FULL=2, INT_MAX=4, INT_LONG=12)),
     (["oid"], dict(OID_FULL=2, OID_MAX=4, OID_LONG=9)),
-    (["bits", "bool", "time"], dict(BITS_FULL=2, BITS_MAX=4, BOOL_FULL=2, BOOL_MAX=3, TIMEMENU='"full"')),
+    (["bits", "bool", "time", "utc"], dict(BITS_FULL=2, BITS_MAX=4, BOOL_FULL=2, BOOL_MAX=3, TIMEMENU='"full"')),
     (["len", "tag"], dict(LEN_FULL=3, LEN_MAX=5, LEN_SMALL=7, TAG_FULL=2, TAG_MAX=6)),
 ]
 
@@ -71,7 +71,7 @@ def run(ctx):
             for i, line in enumerate(f):
                 if i in (7, 4001, 20011):
                     ctx.add_samples([json.loads(line)], n=3)
-    for k in ("int", "bool", "oid", "bits", "time", "hdr"):
+    for k in ("int", "bool", "oid", "bits", "time", "utc", "hdr"):
         if per_kind.get(k, 0) == 0:
             raise Machinery("no generated case of kind %s" % k)
     ctx.cov["evaluations"] += evals
